@@ -136,7 +136,8 @@ func runShard(o DriverOpts, p *Prop, work string, shard, nshards int, race bool,
 			sr.inconcl = fmt.Sprintf("watchdog (%s) fired in shard %d at %s[%d]", watchdog(o.Tier), shard, st, idx)
 			return sr
 		}
-		if werr == nil && sr.res != nil && sr.res.Done {
+		if sr.res != nil && sr.res.Done && (werr == nil || race) {
+			// a -race worker that saw races exits with status 66 after finishing; the reports are in its log
 			return sr
 		}
 		if sr.res != nil && sr.res.HarnessErr != "" {
@@ -260,6 +261,17 @@ func parseRaceLogs(glob string) (reports map[string]string, total int) {
 			}
 			sort.Strings(fr)
 			key := strings.Join(fr, "|")
+			lib := false
+			for _, a := range accesses {
+				for _, fn := range a {
+					if (strings.HasPrefix(fn, repoPath) && !strings.Contains(fn, "/verifhook.")) || strings.Contains(fn, "valyala/bytebufferpool") {
+						lib = true
+					}
+				}
+			}
+			if !lib {
+				key = "HARNESS:" + key
+			}
 			if _, ok := reports[key]; !ok {
 				if len(blk) > 5000 {
 					blk = blk[:5000]
@@ -410,6 +422,10 @@ func RunDriver(o DriverOpts) int {
 			reps, n := parseRaceLogs(sr.raceLog)
 			total.Counters["race_reports_raw"] += uint64(n)
 			for key, blk := range reps {
+				if strings.HasPrefix(key, "HARNESS:") {
+					inconclusive = append(inconclusive, "race inside the harness itself (no library frame): "+key)
+					continue
+				}
 				sig := "race:" + key
 				if t := total.Violations[sig]; t == nil {
 					total.Violations[sig] = &Violation{Sig: sig, Stage: "race-detector", Idx: uint64(sr.shard), Detail: blk, Count: 1}
@@ -444,6 +460,10 @@ func RunDriver(o DriverOpts) int {
 				inconclusive = append(inconclusive, fmt.Sprintf("stage %s produced %d distinct cover keys, fewer than the floor %d", st.Name, c, st.MinCover))
 			}
 		}
+	}
+
+	if p.Conclude != nil {
+		inconclusive = append(inconclusive, p.Conclude(total)...)
 	}
 
 	// classify
